@@ -18,14 +18,6 @@ Fuel == 1500
 LX == INSTANCE TexLexer WITH Deviations <- {}, Bug <- ""
 PlainTable == << <<92, 0>>, <<123, 1>>, <<125, 2>>, <<35, 6>>, <<32, 10>>, <<126, 13>>, <<33, 13>>, <<37, 14>> >>
                \o [i \in 1..26 |-> <<96 + i, 11>>] \o [i \in 1..26 |-> <<64 + i, 11>>]
-NameCodes == << <<100,101,102>>, <<103,100,101,102>>, <<103,108,111,98,97,108>>, <<108,101,116>>, <<99,111,117,110,116>>,
-                <<99,111,117,110,116,100,101,102>>, <<99,104,97,114,100,101,102>>, <<97,100,118,97,110,99,101>>,
-                <<109,117,108,116,105,112,108,121>>, <<100,105,118,105,100,101>>, <<116,104,101>>, <<114,101,108,97,120>>,
-                <<101,120,112,97,110,100,97,102,116,101,114>>, <<110,111,101,120,112,97,110,100>>, <<105,102,116,114,117,101>>,
-                <<105,102,102,97,108,115,101>>, <<105,102,110,117,109>>, <<105,102,111,100,100>>, <<105,102,99,97,115,101>>,
-                <<111,114>>, <<101,108,115,101>>, <<102,105>>, <<103,108,111,98,97,108,100,101,102,115>>, <<108,111,110,103>>,
-                <<111,117,116,101,114>>, <<116,111,107,115>>, <<116,111,107,115,100,101,102>>,
-                <<118,97>>, <<118,98>>, <<118,99>>, <<118,100>>, <<118,101>>, <<118,102>>, <<118,103>>, <<118,104>> >>
 LexedTok(t) ==
   IF t.k # "tok" THEN Tok("bad", 0)
   ELSE IF t.cat = 16 THEN (IF \E i \in 1..Len(NameCodes) : NameCodes[i] = t.name
@@ -46,8 +38,13 @@ Verdict(key, R, e) ==
 Judge(e) ==
   IF e.budget = 1 THEN Verdict("skip-step-budget", InitState(<<>>, 0), e)
   ELSE IF "panic" \in DOMAIN e THEN Verdict("panic", InitState(<<>>, 0), e)
-  ELSE IF "lines" \in DOMAIN e /\ ~SourceLexesTo(e) THEN Verdict("source-does-not-lex-to-the-program", InitState(<<>>, 0), e)
-  ELSE LET R == IF "cut" \in DOMAIN e
+  ELSE IF "prog" \in DOMAIN e /\ "lines" \in DOMAIN e /\ ~SourceLexesTo(e)
+       THEN Verdict("source-does-not-lex-to-the-program", InitState(<<>>, 0), e)
+  ELSE LET R == IF "prog" \notin DOMAIN e
+                THEN \* the program is given as the characters of its file only: the model reads them itself, under the
+                     \* category codes and the line end the program sets on the way (TexVM: the lexer in the loop)
+                     ResultOfSource(e.lines, Fuel)
+                ELSE IF "cut" \in DOMAIN e
                 THEN \* two lines: the first is run to the end of its input (a scanner that meets the end of the
                      \* line there is what it is in the VM: the end of the input); what remains is the state the
                      \* second line starts from.  Serialising and deserialising in between must change nothing.
